@@ -9,6 +9,7 @@ import json, os, shutil, concurrent.futures
 import vlib
 
 PROPS = ["C06", "C07"]
+DRIVERS = ["keyed"]
 C06 = ["SetKeyResult", "RemoveKeyResult", "SyncKeysResult", "GetKeyResult", "GetKeysResult",
        "GetKeysDataResult", "AddKeyRefResult", "RcRemoveKeyResult"]
 C07 = ["Overlap", "LiveAfterRemove", "LiveAfterClear", "StartedAfterRemove", "StartedAfterClear", "RetryLost"]
